@@ -42,6 +42,11 @@ pub enum BroadCmd {
     SendOwnState {
         am_choked_map: HashMap<String, bool>,
     },
+    /// Piece was given back (choke, disconnect): listed peers are idle and have it
+    OfferPiece {
+        piece_index: usize,
+        addrs: Vec<String>,
+    },
 }
 #[derive(Debug)]
 pub enum PeerCmd {
